@@ -59,7 +59,9 @@ FreshState ==
    hdef   |-> FALSE,  \* the script has reset the error handlers to the library's defaults (set_handler(nullptr))
    taint  |-> -1,     \* id of the last stack allocation before a failed request that changed the stack's state (-1: none)
    snap   |-> {},     \* upstream blocks that were outstanding when the previous API call returned
-   over   |-> FALSE]  \* execution ended abnormally
+   over   |-> FALSE,  \* execution ended abnormally
+   vm     |-> <<>>,   \* address ranges reserved from the operating system (index r+1): [pg, live, com = committed pages]
+   vmPend |-> {}]     \* page ranges <<r, off, pg>> of blocks returned to a virtual source and not yet decommitted
 
 HasBlk(b) == b >= 0 /\ b < Len(st.blocks)
 \* total: an address outside every block the world handed out maps to a dead, empty block of no source
@@ -83,20 +85,50 @@ Result(s, v) == [s |-> s, v |-> v]
 
 -----------------------------------------------------------------------------
 (* upstream events *)
+\* (defined below) a block handed out by a virtual source consists of committed pages of its reservation
+VmOf(e) == "vr" \in DOMAIN e /\ e.vr >= 0
 OnUa(e) ==
   Result([st EXCEPT !.blocks = Append(@, [size |-> e.sz, al |-> e.al, src |-> e.s,
                                            live |-> TRUE, st |-> e.st])],
          \* a fixed storage hands out blocks of itself only: beyond its end it must refuse (out_of_fixed_memory)
-         Chk(~e.out, "C03", "FixedStorageNeverOverrun", <<e.s, e.b, e.sz>>))
+         Chk(~e.out, "C03", "FixedStorageNeverOverrun", <<e.s, e.b, e.sz>>)
+         \cup Chk(~VmOf(e) \/ (e.vr < Len(st.vm) /\ (e.vo..(e.vo + e.vp - 1)) \subseteq st.vm[e.vr + 1].com),
+                  "C05", "VmBlockIsCommitted", <<e.b, e.vr, e.vo, e.vp>>))
 
 OnUx(e) == Result([st EXCEPT !.inj = @ + 1], {})
+
+(* The operating system as the upstream of virtual_block_allocator (src/virtual_memory.cpp): what is committed is  *)
+(* inside the reservation and not committed yet, what is decommitted is exactly a block that was given back, the   *)
+(* reservation is released whole and empty.  Pages are numbered relative to the reservation.                       *)
+VmRange(e) == e.off..(e.off + e.pg - 1)
+HasVm(r) == r >= 0 /\ r < Len(st.vm)
+OnVm(e) ==
+  IF e.k = "reserve" THEN Result([st EXCEPT !.vm = Append(@, [pg |-> e.pg, live |-> TRUE, com |-> {}])], {})
+  ELSE IF ~HasVm(e.r) THEN Result(st, {V("X", "VmUnknownReservation", <<e.k, e.r>>)})
+  ELSE LET v == st.vm[e.r + 1]
+           rng == VmRange(e)
+           inside == v.live /\ e.off >= 0 /\ e.off + e.pg <= v.pg
+       IN CASE e.k = "commit" ->
+                 Result([st EXCEPT !.vm[e.r + 1].com = IF e.ok /\ inside THEN @ \cup rng ELSE @],
+                        Chk(inside, "C05", "VmCommitInsideReservation", <<e.r, e.off, e.pg, v.pg, v.live>>)
+                        \cup Chk(rng \cap v.com = {}, "C05", "VmCommitNotCommittedYet", <<e.r, e.off, e.pg, v.com>>))
+            [] e.k = "decommit" ->
+                 Result([st EXCEPT !.vm[e.r + 1].com = @ \ rng, !.vmPend = @ \ {<<e.r, e.off, e.pg>>}],
+                        Chk(inside /\ rng \subseteq v.com, "C05", "VmDecommitWasCommitted", <<e.r, e.off, e.pg, v.com>>)
+                        \cup Chk(<<e.r, e.off, e.pg>> \in st.vmPend, "C05", "VmDecommitIsTheReturnedBlock", <<e.r, e.off, e.pg, st.vmPend>>))
+            [] e.k = "release" ->
+                 Result([st EXCEPT !.vm[e.r + 1].live = FALSE],
+                        Chk(v.live /\ e.off = 0 /\ e.pg = v.pg, "C05", "VmReleaseWholeReservation", <<e.r, e.off, e.pg, v.pg, v.live>>)
+                        \cup Chk(v.com = {}, "C05", "VmReleaseAfterDecommit", <<e.r, v.com>>))
+            [] OTHER -> Result(st, {V("X", "UnknownEvent", <<"vm", e.k>>)})
 
 OnUf(e) ==
   IF e.b < 0
   THEN Result(st, {V("C05", "NoUnknownOrDoubleReturn", <<e.s, e.sz, e.pb, e.po>>)})
   ELSE LET b == Blk(e.b)
            peers == LiveBlocksOf(st, b.src)
-       IN Result([st EXCEPT !.blocks[e.b + 1].live = FALSE],
+       IN Result([st EXCEPT !.blocks[e.b + 1].live = FALSE,
+                            !.vmPend = IF VmOf(e) THEN @ \cup {<<e.vr, e.vo, e.vp>>} ELSE @],
             Chk(e.sz = b.size /\ e.al = b.al, "C05", "UpFreeSameSizeAlign", <<e.b, e.sz, b.size, e.al, b.al>>)
             \cup Chk(e.s = b.src, "C05", "UpFreeSameSource", <<e.b, e.s, b.src>>)
             \cup Chk(peers = {} \/ e.b + 1 = MaxOf(peers), "C05", "UpFreeReverseOrder", <<e.b, peers>>))
@@ -480,13 +512,17 @@ OnDied(e) ==
 
 OnEnd(e) ==
   LET left == {i \in 1..Len(st.blocks) : st.blocks[i].live /\ ~st.blocks[i].st}
-  IN Result(st, Chk(left = {}, "C05", "NoBlockLeftAtEnd", <<left>>))
+  IN Result(st, Chk(left = {}, "C05", "NoBlockLeftAtEnd", <<left>>)
+                \cup Chk(st.vmPend = {}, "C05", "VmReturnedBlockDecommitted", <<st.vmPend>>)
+                \cup Chk(\A i \in 1..Len(st.vm) : ~st.vm[i].live, "C05", "VmAllReleasedAtEnd",
+                         <<{i - 1 : i \in {j \in 1..Len(st.vm) : st.vm[j].live}}>>))
 
 -----------------------------------------------------------------------------
 Apply(e) ==
   CASE e.e = "ua" -> OnUa(e)
     [] e.e = "ux" -> OnUx(e)
     [] e.e = "uf" -> OnUf(e)
+    [] e.e = "vm" -> OnVm(e)
     [] e.e = "h" -> OnH(e)
     \* set_handler(nullptr) selects the default handler: the getters never return null, failures are still thrown
     [] e.e = "hmode" -> Result([st EXCEPT !.hdef = e.def],
@@ -523,7 +559,7 @@ Step ==
        IF e.e = "cfg" THEN cfg' = e /\ UNCHANGED <<x, st, viol>>
        ELSE IF e.e = "x" THEN x' = e.n /\ st' = FreshState /\ UNCHANGED <<cfg, viol>>
        ELSE LET res == Apply(e)
-                isCall == e.e \notin {"ua", "uf", "ux", "h"}
+                isCall == e.e \notin {"ua", "uf", "ux", "h", "vm"}
                 live2 == {i \in 1..Len(res.s.blocks) : res.s.blocks[i].live}
             IN /\ st' = IF isCall THEN [res.s EXCEPT !.snap = live2] ELSE res.s
                /\ viol' = viol \cup (IF "ovf" \in DOMAIN e THEN {V("ANY", "ValueInRange", <<e.e>>)} ELSE {}) \cup res.v
